@@ -60,8 +60,8 @@ struct Node {
     void make(const Node *parent)
     {
         tag = vp_u8(); vp_assume(tag < NTAG);
-        ns = vp_u8(); vp_assume(ns < (parent ? NNS : NS_INHERIT));
-        eff = (ns == NS_INHERIT) ? parent->eff : ns;
+        ns = vp_u8(); vp_assume(ns < NNS);
+        eff = (ns == NS_INHERIT && parent) ? parent->eff : ns;   // eff == NS_INHERIT: in no namespace at all
         // tag: message|sent|received|forwarded|body|private; xmlns: urn:xmpp:carbons:2|urn:xmpp:forward:0|jabber:client|urn:xmpp:carbons:1|none
         QString t, n; vp_c11_pick_tag(&t, tag); vp_c11_pick_ns(&n, ns);
         vp_dom_new(&el, &t, &n);
@@ -77,11 +77,13 @@ struct Tree {
         outer.make(nullptr);
         hasFrom = vp_bool(); from = vpSymString(C11_STRLEN);
         if (hasFrom) vp_dom_set_attr(&outer.el, &fromName, &from);
-        bool innerHasFrom = vp_bool(); QString innerFrom = vpSymString(C11_STRLEN);
+        bool innerHasFrom = vp_bool(); QString innerFrom = vpSymString(C11_STRLEN);   // 'from' of every wrapper / inner element
         for (int i = 0; i < C11_N1; i++) {
             l1[i].make(&outer); vp_dom_append(&outer.el, &l1[i].el);
+            if (innerHasFrom) vp_dom_set_attr(&l1[i].el, &fromName, &innerFrom);
             for (int j = 0; j < C11_N2; j++) {
                 l2[i][j].make(&l1[i]); vp_dom_append(&l1[i].el, &l2[i][j].el);
+                if (innerHasFrom) vp_dom_set_attr(&l2[i][j].el, &fromName, &innerFrom);
                 for (int k = 0; k < C11_N3; k++) {
                     l3[i][j][k].make(&l2[i][j]); vp_dom_append(&l2[i][j].el, &l3[i][j][k].el);
                     if (innerHasFrom) vp_dom_set_attr(&l3[i][j][k].el, &fromName, &innerFrom);
@@ -163,4 +165,23 @@ extern "C" void h_v1()
     Tree t; t.build();
     bool ret = mgr->QXmppCarbonManager::handleStanza(t.outer.el);
     oracle(t, bare, ret, true, mgr.p(), client, sentIdx, recvIdx);
+}
+
+// Helper lemma: QXmpp::Private::firstChildElement(el, tag, xmlns) returns the FIRST child element whose tag matches (or any tag
+// when the tag view is empty) and whose namespace matches (or any when empty); a null element when there is none / el is null.
+#include "QXmppUtils_p.h"
+extern "C" void h_first_child()
+{
+    Node parent, ch[3]; parent.make(nullptr);
+    for (int i = 0; i < 3; i++) { ch[i].make(&parent); vp_dom_append(&parent.el, &ch[i].el); }
+    unsigned n = vp_u8(); vp_assume(n <= 3); vp_dom_truncate(&parent.el, n);
+    unsigned qt = vp_u8(), qn = vp_u8(); vp_assume(qt <= NTAG && qn <= NS_INHERIT);   // NTAG / NS_INHERIT: empty view = wildcard
+    QString ts, nss; if (qt < NTAG) vp_c11_pick_tag(&ts, qt); vp_c11_pick_ns(&nss, qn);
+    bool nullParent = vp_bool();
+    QDomElement r = QXmpp::Private::firstChildElement(nullParent ? QDomElement() : parent.el, ts, nss);
+    int exp = -1;
+    for (int i = 2; i >= 0; i--)
+        if (!nullParent && unsigned(i) < n && (qt == NTAG || ch[i].tag == qt) && (qn == NS_INHERIT || ch[i].eff == qn)) exp = i;
+    if (exp < 0) vp_assert(r.isNull(), "C11 firstChildElement: null when no child matches");
+    for (int i = 0; i < 3; i++) if (exp == i) vp_assert(r == ch[i].el, "C11 firstChildElement: returns the first child matching tag and namespace");
 }
